@@ -52,6 +52,9 @@ class SeqFamily:
                patterns=[sub(s, lo, hi)]),
             FA([s, lo, hi, j], Imp(And(0 <= lo, lo <= hi, hi <= ln(s), 0 <= j, j < hi - lo),
                                    at(sub(s, lo, hi), j) == at(s, lo + j)), patterns=[at(sub(s, lo, hi), j)]),
+            FA([s, lo, hi, i], Imp(And(0 <= lo, lo <= i, i < hi, hi <= ln(s)),
+                                   at(s, i) == at(sub(s, lo, hi), i - lo)),
+               patterns=[z3.MultiPattern(at(s, i), sub(s, lo, hi))]),
             FA([s], sub(s, 0, ln(s)) == s, patterns=[sub(s, 0, ln(s))]),
             FA([s, lo], Imp(And(0 <= lo, lo <= ln(s)), sub(s, lo, lo) == self.empty), patterns=[sub(s, lo, lo)]),
             # membership
